@@ -24,8 +24,17 @@ TRUSTED_BASE = [
     "axioms of every property theorem ⊆ {propext, Classical.choice, Quot.sound} (printed by Rbacx/Audit.lean on every run)",
     "hand-written model lean/Rbacx/Model/*.lean, tied to /repo by the correspondence harness (differential, this run) and harness/extract.py",
     "oracles computed by the harness without calling rbacx: CPython str()/float()/datetime parsing, json, hashlib",
-    "where a check uses the source-to-Lean translation (C02, C03, C05, C17): harness/pytolean.py and the meaning of Python's operations in "
-    "lean/Rbacx/Model/PyLib.lean, both validated against CPython on every run (Run/SrcEval.lean, Run/SrcEvalFrag.lean, Run/SrcEvalTarget.lean); "
+    "where a check uses the source-to-Lean translation (C02, C03, C05, C07, C17): harness/pytolean.py and the meaning of Python's operations in "
+    "lean/Rbacx/Model/PyLib.lean, both validated against CPython on every run (Run/SrcEval.lean, Run/SrcEvalFrag.lean, Run/SrcEvalTarget.lean, "
+    "Run/SrcEvalObl.lean); "
+    "for the translated obligation checker BasicObligationChecker.check (C07): EXTERNAL-FUNCTION PARAMETERS — _finite_number is not translated "
+    "but a function parameter of the translated loop body; the obligation C07_translated instantiates it with the model's finiteNumber "
+    "(float(str) through the oracle), so the equality speaks about the source with finiteNumber in _finite_number's place, and what ties "
+    "finiteNumber to the real _finite_number (float() parsing, NaN/Inf tests) is the differential run alone (model vs real function on a value "
+    "grid, and the real function's results handed to the evaluator as a table); further trusted readings: try: X = E except TypeError: X = C "
+    "around one D.get(K) is `if hashable K then E else C` (only hashing the key can raise TypeError on JSON-shaped values), < / > are defined "
+    "on float×float and int×int only, an f-string field is str() of its value, ctx = getattr(context, 'attrs', context) or {} and the for "
+    "statement itself are hand-written (Py.forFlow), d.get on a non-dict is None (CPython raises: the equalities speak about dict contexts); "
     "for the translated target matcher match_resource / _is_strict (C05) the trusted readings are: a set used only as the right operand of "
     "in / not in is membership by == (an unhashable member, a TypeError in CPython, is not represented: the source guards it), an "
     "early-return loop over d.items() is the first returned value in insertion order, a try/except-Exception function body is its try body, "
